@@ -1,5 +1,6 @@
 mod client;
 mod enc;
+mod capture;
 mod cases;
 mod obs;
 use common::{Out, Rng};
@@ -19,8 +20,27 @@ fn tables(out: &mut Out, r: &mut Rng, n: usize) {
     out.case("c21 WSTABLE", &ws.join(","));
     for _ in 0..n {
         let toks: Vec<Vec<u8>> = (0..16).map(|_| {
-            let len = r.range(1, 6) as usize;
-            (0..len).map(|_| match r.below(4) { 0 => r.below(128) as u8, 1 => r.range(0x80, 0xBF) as u8, 2 => *r.pick(&[0xC0u8, 0xC1, 0xC2, 0xDF, 0xE0, 0xE1, 0xEC, 0xED, 0xEE, 0xEF, 0xF0, 0xF1, 0xF3, 0xF4, 0xF5, 0xFF]), _ => *r.pick(&[0x80u8, 0x8F, 0x90, 0x9F, 0xA0, 0xBF]) }).collect()
+            if r.chance(1, 3) {
+                // random bytes biased to lead/continuation boundaries
+                let len = r.range(1, 6) as usize;
+                (0..len).map(|_| match r.below(4) { 0 => r.below(128) as u8, 1 => r.range(0x80, 0xBF) as u8, 2 => *r.pick(&[0xC0u8, 0xC1, 0xC2, 0xDF, 0xE0, 0xE1, 0xEC, 0xED, 0xEE, 0xEF, 0xF0, 0xF1, 0xF3, 0xF4, 0xF5, 0xFF]), _ => *r.pick(&[0x80u8, 0x8F, 0x90, 0x9F, 0xA0, 0xBF]) }).collect()
+            } else {
+                // a well-formed string of boundary scalars, then (half the time) one byte changed, dropped or added
+                let n = r.range(1, 4);
+                let mut s = String::new();
+                for _ in 0..n { s.push(char::from_u32(*r.pick(&[0x24u32, 0x7F, 0x80, 0x7FF, 0x800, 0xFFF, 0x1000, 0xCFFF, 0xD000, 0xD7FF, 0xE000, 0xFFFF, 0x10000, 0x3FFFF, 0x40000, 0xFFFFF, 0x100000, 0x10FFFF, 0xE9, 0x131, 0xFB01])).unwrap()); }
+                let mut b = s.into_bytes();
+                if r.chance(1, 2) {
+                    let i = r.below(b.len() as u64) as usize;
+                    match r.below(4) {
+                        0 => b[i] = b[i].wrapping_add(*r.pick(&[1u8, 0x10, 0x40, 0x80, 0xFF])),
+                        1 => { b.remove(i); }
+                        2 => b.insert(i, *r.pick(&[0x80u8, 0xBF, 0xC0, 0xED, 0xA0, 0xF4, 0x90])),
+                        _ => b[i] = *r.pick(&[0xEDu8, 0xA0, 0xE0, 0x9F, 0xF0, 0x8F, 0xF4, 0x90, 0xC1, 0xF5]),
+                    }
+                }
+                b
+            }
         }).collect();
         let case = format!("c21 UTF8 {}", toks.iter().map(|t| enc::enc(t)).collect::<Vec<_>>().join(" "));
         let o = toks.iter().map(|t| if std::str::from_utf8(t).is_ok() { "1" } else { "0" }).collect::<Vec<_>>().join(",");
@@ -43,7 +63,7 @@ fn main() {
         for line in std::fs::read_to_string(&a.rest[0]).unwrap().lines() {
             let (body, tag) = match line.split_once(" ## ") { Some((b, t)) => (b, Some(t)), None => (line, None) };
             let t: Vec<&str> = body.split_whitespace().collect();
-            if t.len() >= 2 && t[0] == "c21" && ["UPPERTABLE", "WSTABLE", "UTF8", "DEC"].contains(&t[1]) {
+            if t.len() >= 2 && t[0] == "c21" && ["UPPERTABLE", "WSTABLE", "UTF8", "DEC", "CALL"].contains(&t[1]) {
                 // table cases are regenerated as a whole
                 if t[1] == "UPPERTABLE" { let mut r = Rng::new(a.seed); tables(&mut out, &mut r, 0); }
                 continue;
@@ -73,9 +93,12 @@ fn main() {
             }
         }
     }
+    let mut cap = capture::Capture::new();
     for _ in 0..(if thorough { 30_000 } else { 3_000 }) {
-        let e = client::emit(&mut r);
+        let e = client::emit(&mut r, &mut cap);
         emit(&mut out, &e.cmd, &e.tokens, &format!("client {} ## {}", e.func, e.expect));
+        // the same call through the model's printers: what the client really put on the wire
+        out.case(&format!("c21 CALL {}", e.call), &format!("{} {}", e.cmd, e.tokens.iter().map(|t| enc::enc(t)).collect::<Vec<_>>().join(" ")).trim_end().to_string());
     }
     out.flush();
 }
